@@ -2,9 +2,10 @@
 C13 — Full cleaning removes only noise and keeps the program's structure.   (PARTIAL)
 
 Property theorems only. The model is lean/Paroxy/Model/Cleanup.lean: the text passes of `Cleanup` as
-structural functions (R2) and the token loop of `full_cleaning` taking the TOKEN LIST as input. It mirrors
+structural functions (R2), the token loop of `full_cleaning` taking the TOKEN LIST as input, and
+`suppress_main_guard` taking the parser's answer (line ranges of the top-level `if`s) as input. It mirrors
 /repo after the repairs e959b88 (F08), ff0b849 (F18), decc026 (F21), 2488bc4 (F19), 466f14f (F22+F23),
-55c4b14 (F33).
+55c4b14 (F33), 9ee7189 (F20). No finding of C13 is open.
 
 PROVED here, for every text and every token list (not only those CPython's tokenizer can produce):
   * no line of the result is empty or blank                                   (C13_no_blank_line)
@@ -19,8 +20,9 @@ PROVED here, for every text and every token list (not only those CPython's token
     hence keeps every line that begins with a hint marker, first line included (C13_hints_kept)
   * the two final passes are idempotent                                       (C13_blank_pass_idempotent,
                                                                                C13_pass_pass_idempotent)
-  * still open (finding F20): `suppress_main_guard` deletes everything from the guard to the end of the
-    text                                        (C13_main_guard_partial, C13_main_guard_counterexample)
+  * `suppress_main_guard` (parser as an oracle) removes exactly the lines of the guarded top-level
+    `if` blocks and keeps every other line in order — repair 9ee7189          (C13_main_guard,
+                                                                               C13_main_guard_unparsable)
   * a token on a later row inside an open logical line (backslash continuation) is kept apart from
     the previous one, column 0 included — repair 55c4b14                     (C13_rows_not_glued)
 
@@ -43,8 +45,9 @@ theorem C13_no_blank_line (ts : List Token) : NoBlankLine (postprocess ts) :=
   finish_noBlankLine (loopText ts)
 
 /-- The same for `full_cleaning` itself, whatever the tokenizer answers (it may raise). -/
-theorem C13_no_blank_line_full {ε : Type} (tokenize : Text → Except ε (List Token)) (src out : Text)
-    (h : fullCleaning tokenize src = .ok out) : NoBlankLine out := by
+theorem C13_no_blank_line_full {ε : Type} (parse : Text → Option (List (Nat × Nat)))
+    (tokenize : Text → Except ε (List Token)) (src out : Text)
+    (h : fullCleaning parse tokenize src = .ok out) : NoBlankLine out := by
   unfold fullCleaning at h
   split at h
   · cases h
@@ -235,49 +238,33 @@ theorem C13_hints_kept_embedded_marker_limit :
   revert this
   decide
 
-/-! ## The main guard (finding F20, still open) -/
+/-! ## The main guard (finding F20, repaired by 9ee7189) -/
 
-/-- What the property needs from `suppress_main_guard`: only the guard's part goes. In particular a
-text without any guard is unchanged, and what FOLLOWS the guarded block survives. -/
-def C13_main_guard : Prop :=
-  ∀ t : Text, ∃ removed, t = suppressMainGuard t ++ removed ∧
-    ∀ l ∈ (splitNl removed).drop 1, l = [] ∨ l.head? = some ' '
+/-- **C13 (main guard)** — FULL since repair 9ee7189. The parser being an oracle that reports the
+line ranges of the top-level `if` statements (`RangesOk`: in bounds, one after the other), the pass
+removes exactly the lines of the `if` blocks whose first line is the `__main__` guard and keeps every
+other line, in order (`keepOutsideGuards`): in particular what FOLLOWS a guarded block survives. -/
+theorem C13_main_guard (t : Text) (ifs : List (Nat × Nat)) (hok : RangesOk 0 (splitNl t).length ifs) :
+    suppressMainGuard (some ifs) t = joinNl (keepOutsideGuards 0 (splitNl t) ifs) := by
+  have := dropGuards_reverse ifs 0 (splitNl t) [] rfl hok
+  simp only [List.nil_append] at this
+  simp only [suppressMainGuard, this]
 
-/-- **C13 (main guard), partial.** The pass only ever cuts a suffix off the text, starting at a line
-that matches the guard; without such a line the text is unchanged. -/
-theorem C13_main_guard_partial (t : Text) :
-    (∃ removed, t = suppressMainGuard t ++ removed ∧ (removed = [] ∨ guardAt removed = true)) := by
-  unfold suppressMainGuard
-  have aux : ∀ (b : Bool) (t : Text), ∃ removed, t = dropGuard b t ++ removed ∧
-      (removed = [] ∨ guardAt removed = true) := by
-    intro b t
-    induction t generalizing b with
-    | nil => exact ⟨[], by simp [dropGuard]⟩
-    | cons c cs ih =>
-      cases b with
-      | true =>
-        rw [dropGuard]
-        split
-        · rename_i hg
-          exact ⟨c :: cs, by simp, Or.inr hg⟩
-        · obtain ⟨r, hr, hg⟩ := ih (c == '\n')
-          exact ⟨r, by simp only [List.cons_append]; rw [← hr], hg⟩
-      | false =>
-        rw [dropGuard]
-        obtain ⟨r, hr, hg⟩ := ih (c == '\n')
-        exact ⟨r, by simp only [List.cons_append]; rw [← hr], hg⟩
-  exact aux true t
+/-- A source that the parser rejects is left unchanged (the parser will report the error). -/
+theorem C13_main_guard_unparsable (t : Text) : suppressMainGuard none t = t := rfl
 
-/-- **Finding 20 at model level.** The code after the guarded block is deleted too. -/
-theorem C13_main_guard_counterexample : ¬ C13_main_guard := by
-  intro h
-  obtain ⟨removed, hr, hl⟩ := h "if __name__ == \"__main__\":\n    main()\nx = 2\n".toList
-  have hs : suppressMainGuard "if __name__ == \"__main__\":\n    main()\nx = 2\n".toList = [] := by decide
-  rw [hs, List.nil_append] at hr
-  subst hr
-  have := hl "x = 2".toList (by decide)
-  revert this
-  decide
+/-- the former counter-example: the code after the guarded block survives -/
+example : suppressMainGuard (some [(1, 2)]) "if __name__ == \"__main__\":\n    main()\nx = 2\n".toList =
+    "x = 2\n".toList := by decide
+example : RangesOk 0 (splitNl "if __name__ == \"__main__\":\n    main()\nx = 2\n".toList).length [(1, 2)] := by
+  have : (splitNl "if __name__ == \"__main__\":\n    main()\nx = 2\n".toList).length = 4 := by decide
+  rw [this]
+  exact ⟨by omega, by omega, by omega, trivial⟩
+set_option maxRecDepth 4000 in
+/-- an ordinary `if` is kept; a guard with an `else:` branch goes as a whole; two guards -/
+example : suppressMainGuard (some [(1, 2), (4, 7), (9, 9)])
+    "if x:\n    y = 1\nz = 1\nif __name__ == '__main__':\n    a()\nelse:\n    b()\n# paroxython: foo\nif __name__==\"__main__\": main()\nw = 1".toList =
+    "if x:\n    y = 1\nz = 1\n# paroxython: foo\nw = 1".toList := by decide
 
 /-! ## Explicit line joining (finding F33, repaired by 55c4b14) -/
 
